@@ -103,6 +103,24 @@ impl<'a> ConfigExtractor<'a> {
         Ok(value)
     }
 
+    /// Checks that the value of a size-like configuration key lies between 0 and `max`
+    pub fn check_size(&self, key: &str, value: i64, max: i64) -> CoreResult<usize> {
+        if !(0..=max).contains(&value) {
+            let span = self
+                .try_get_kvp(key)
+                .map(|(k, v)| k.span.merge(v.span))
+                .unwrap_or(self.config_span);
+            return Err(Diagnostic::error()
+                .with_message(format!(
+                    "configuration key '{}' should be between 0 and {}, but is: {}",
+                    key, max, value
+                ))
+                .with_labels(vec![span.to_label()])
+                .into());
+        }
+        Ok(value as usize)
+    }
+
     pub fn try_get_expression(&self, key: &str) -> Option<Located<Expression>> {
         let expr = self.try_get_located_token(key).map(|lt| {
             lt.map(|tok| match tok {
